@@ -182,7 +182,7 @@ def marking_arg(op, version):
 
 def call(obj, op, version):
     name = op["op"]
-    via_method = op.get("via") == "method" and isinstance(obj, stix2.base._STIXBase)
+    via_method = op.get("via") == "method" and isinstance(obj, stix2.base._STIXBase) and hasattr(obj, "get_markings")
     sel = copy.deepcopy(op.get("selectors"))
     if op.get("selectors_tuple") and isinstance(sel, list):
         sel = tuple(sel)                      # an empty / non-list sequence given as `selectors`
@@ -249,6 +249,7 @@ def run_c08(obj, case):
     M = stix2.markings
     red = "marking-definition--5e57c739-391a-4eb3-b6be-7d15ca92d5ed"
     is_obj = isinstance(obj, stix2.base._STIXBase)
+    has_methods = is_obj and hasattr(obj, "get_markings")     # 2.1 observables carry markings but not the methods
     out = []
     for sel in case["selectors"]:
         r = {}
@@ -265,7 +266,7 @@ def run_c08(obj, case):
         }
         for name, (fn, meth) in fns.items():
             a = outcome(fn)
-            if is_obj:
+            if has_methods:
                 b = outcome(meth)
                 if a != b:
                     a = "fn=%s/method=%s" % (a, b)
@@ -276,7 +277,7 @@ def run_c08(obj, case):
                 ("is_marked_inh", lambda: M.is_marked(obj, m0, sel, True, True), lambda: obj.is_marked(m0, sel, True, True)),
                 ("get_inh", lambda: M.get_markings(obj, sel, True, True), lambda: obj.get_markings(sel, True, True))):
             a = outcome(fn)
-            if is_obj:
+            if has_methods:
                 b = outcome(meth)
                 if a != b:
                     a = "fn=%s/method=%s" % (a, b)
